@@ -295,6 +295,7 @@ def _run_one(o, mod, dem, ll, wd, tier, seed, R, log, irsym):
                      max_steps=int(opts.get("max_steps", 3000000)),
                      loop_bound=(int(opts["loop_bound"]) if "loop_bound" in opts else None), keep_traces=True)
     E.budget_s = float(opts.get("budget_s", 150)) * (8 if thorough else 1)
+    E.presplit = opts.get("presplit", "1") == "1"
     if os.environ.get("VF_TRACE"):
         E.slowlog = lambda m: print("[%s] %s" % (o.id, m), file=sys.stderr)
     try:
